@@ -199,10 +199,8 @@ def r14_2(ctx):
         parsed = {}
         for g in gsets:
             for k, _ in g:
-                try:
-                    parsed[k] = ast.parse(k, mode="eval").body
-                except SyntaxError:
-                    parsed[k] = ast.Name(id=k, ctx=ast.Load())
+                from .common import parse_key
+                parsed[k] = parse_key(k)
         atoms = sorted(set().union(*[leaves(e) for e in parsed.values()])) if parsed else []
         missing = []
         if len(atoms) > 12:
